@@ -68,6 +68,7 @@ Definition check_valid_cy (mods : list Z) (rows : list (list Z)) : bool := cv_co
    py:  if M == 0: [0, L]
         diff = np.ones(L + 1, bool); diff[1:-1] = np.any(qflat[1:] != qflat[:-1], axis=1); np.nonzero(diff)
    cy:  if M == 0: [0, L]
+        if L == 0: [0]
         res[0] = 0; n = 1; for i in 1 .. L-1: (compare row i-1 and i entry by entry, break at the first
         difference) if different: res[n] = i; n += 1;   res[n] = L; return res[:n+1]                  *)
 Fixpoint row_neq (r1 r2 : list Z) : bool :=          (* np.any(r1 != r2) on equal-length rows *)
@@ -108,7 +109,10 @@ Fixpoint frd_loop (M : nat) (i : Z) (prev : list Z) (rest : list (list Z)) : lis
 Definition frd_cy (M : Z) (rows : list (list Z)) : list Z :=
   let L := Z.of_nat (length rows) in
   if M =? 0 then [0; L]
-  else 0 :: (match rows with [] => [] | r :: t => frd_loop (Z.to_nat M) 1 r t end) ++ [L].
+  else match rows with
+       | [] => [0]
+       | r :: t => 0 :: frd_loop (Z.to_nat M) 1 r t ++ [L]
+       end.
 
 (* ---------------------------------------------------------------------------------------------
    _make_stride(shape, cstyle)            (shape non-empty; for shape = [] py raises IndexError and the
